@@ -46,6 +46,17 @@ fn check_inner(sub: &str, g: &G, toks: &[char], l: &mut Local) -> CaseRes {
     let Some(err) = o.errs.last() else {
         return fail(case, "C06/no-error", "the parse failed without reporting an error".into());
     };
+    // check() is a parse too: same primary error (position, span, found, expected set / user error)
+    {
+        let c = run_check(&p, s);
+        l.evals += 1;
+        if let Some(m) = &c.panic {
+            return fail(case, "C06/panic", format!("check panicked: {}", m));
+        }
+        if c.has_output || c.errs.last() != Some(err) {
+            return fail(case, "C06/check-mode-error", format!("check(): has_output={} last error {:?}; parse(): last error {:?}", c.has_output, c.errs.last(), err));
+        }
+    }
     let len = s.len();
     // (c) span inside the input, ordered, on character boundaries
     let (es, ee) = err.span;
